@@ -16,6 +16,12 @@ Supported subset (anything else raises TranslationError => generation fails => d
                try: <single assignment> except (...): pass   only when listed in spec["ignore_try"]
                opt-in (state skeletons whose result is the tuple spec["fallthrough"] of the current values):
                  bare `return`                      only with spec["bare_return"] = True  (-> the fall-through tuple)
+                 spec["raises"] = {text: value}       value of one particular raise statement (by its exact source text)
+                 spec["try_raise_to_handler"]         with try_as_if: a raise inside the try body whose class the handler
+                                                    names is translated as the handler (refused when a raise follows the body)
+                 spec["assign_also"] = {target: let}  ghost binding emitted together with every assignment to target
+                 spec["while_true_step"] = value      a trailing `while True:` (no break / continue / else) is translated as ONE
+                                                    pass of its body; value = what "the loop goes round again" yields
                  try: B except E: H else: L          only when the source text of the first statement of B is a key of
                                                     spec["try_as_if"] = {text: flag}: translated as
                                                     `if flag then H else B; L` (flag = "the guarded call raised E");
@@ -188,6 +194,15 @@ class Tr:
                 raise TranslationError("bare return")
             return self.result(st.value)
         if isinstance(st, ast.Raise):
+            if self.src(st) in self.spec.get("raises", {}):     # per-statement value of a raise (by its exact text)
+                return self.spec["raises"][self.src(st)]
+            if getattr(self, "in_try", None) is not None:
+                # a raise inside the body of a try_as_if block whose handler catches it runs the handler
+                names, handler = self.in_try
+                exc = st.exc.func if isinstance(st.exc, ast.Call) else st.exc
+                if exc is None or self.src(exc) not in names:
+                    raise TranslationError(f"raise inside try not caught by its handler: {self.src(st)[:60]}")
+                return handler
             return self.ret_err
         if isinstance(st, ast.With):
             return self.block(list(st.body) + rest, tail)
@@ -195,12 +210,35 @@ class Tr:
             if st.finalbody or len(st.handlers) != 1:
                 raise TranslationError("try_as_if: finally / several handlers")
             flag = self.spec["try_as_if"][self.src(st.body[0])]
-            return (f"if {flag}\n  then ({self.block(list(st.handlers[0].body) + rest, tail)})\n"
-                    f"  else ({self.block(list(st.body) + list(st.orelse) + rest, tail)})")
+            handler = self.block(list(st.handlers[0].body) + rest, tail)
+            if self.spec.get("try_raise_to_handler"):
+                # raises of the body are caught by the handler: only sound when nothing after the body can raise
+                # and the handler names the exception classes it catches
+                for later in list(st.orelse) + rest:
+                    if any(isinstance(n, ast.Raise) for n in ast.walk(later)):
+                        raise TranslationError("try_raise_to_handler: a raise follows the try body")
+                if getattr(self, "in_try", None) is not None or st.handlers[0].type is None:
+                    raise TranslationError("try_raise_to_handler: nested try / bare except")
+                ht = st.handlers[0].type
+                names = [self.src(e) for e in (ht.elts if isinstance(ht, ast.Tuple) else [ht])]
+                self.in_try = (names, f"({handler})")
+                try:
+                    body = self.block(list(st.body) + list(st.orelse) + rest, tail)
+                finally:
+                    self.in_try = None
+            else:
+                body = self.block(list(st.body) + list(st.orelse) + rest, tail)
+            return f"if {flag}\n  then ({handler})\n  else ({body})"
         if isinstance(st, ast.Try):
             if self.src(st) not in self.spec.get("ignore_try", ()) and ast.unparse(st.body[0]) not in self.spec.get("ignore_try", ()):
                 raise TranslationError(f"try statement: {self.src(st)[:80]}")
             return self.block(rest, tail)
+        if isinstance(st, ast.While) and self.spec.get("while_true_step") is not None:
+            # `while True:` as the LAST statement: one pass of the body is translated; falling out of the body (the loop
+            # goes round again) yields spec["while_true_step"]; break / else / anything after the loop are refused
+            if self.src(st.test) != "True" or st.orelse or rest or any(isinstance(n, (ast.Break, ast.Continue)) for n in ast.walk(st)):
+                raise TranslationError("while_true_step: only `while True:` without break/continue/else as the last statement")
+            return self.block(list(st.body), self.spec["while_true_step"])
         if isinstance(st, ast.Assign):
             if len(st.targets) != 1: raise TranslationError("multiple targets")
             t = st.targets[0]
@@ -210,7 +248,9 @@ class Tr:
                     q, r = (self.target(x) for x in t.elts)
                     return f"let {q} := Z.div {a} {b} in let {r} := Z.modulo {a} {b} in\n  {self.block(rest, tail)}"
                 raise TranslationError(f"tuple assignment {self.src(st)}")
-            return f"let {self.target(t)} := {self.expr(st.value)} in\n  {self.block(rest, tail)}"
+            also = self.spec.get("assign_also", {}).get(self.target(t))      # ghost set together with a target
+            also = f"{also} in\n  " if also else ""
+            return f"let {self.target(t)} := {self.expr(st.value)} in\n  {also}{self.block(rest, tail)}"
         if isinstance(st, ast.AugAssign):
             op = BINOPS.get(type(st.op))
             if op is None: raise TranslationError("augmented operator")
